@@ -122,3 +122,44 @@ package parser
 //@ typeinv BoolExpressionAttribute(a): inL(a.Name, NO_0a_STAR)
 //@ typeinv ExpressionAttribute(a): inL(a.Name, NO_0a_STAR)
 //@ typeinv TrailingSpace(t): t == "" || t == " " || t == "\n"
+
+// ---------------------------------------------------------------------------
+// C06 (partial): the layer that cuts Go expressions out of the input and records where they are.
+// pi.s is the whole input, pi.charIndex the current offset (github.com/a-h/parse.Input, modelled from its source).
+//
+// located(pi, e): the recorded range of e is inside the input, ordered, its line / column are those of its byte
+// offsets, and the input holds e's text at the start of the range.
+//@ spec inputOK(pi) = pi != nil && 0 <= pi.charIndex && pi.charIndex <= len(pi.s) && len(pi.s) < 1<<31
+//@ spec posOK(s, p) = 0 <= p.Index && p.Index <= len(s) && p.Line == nlCount(s, p.Index) && p.Col == p.Index - lineStart(s, p.Index)
+//@ spec located(s, e) = posOK(s, e.Range.From) && posOK(s, e.Range.To) && e.Range.From.Index <= e.Range.To.Index && e.Range.From.Index + len(e.Value) <= len(s) && sub(s, e.Range.From.Index, e.Range.From.Index + len(e.Value)) == e.Value
+
+//@ func NewExpression [C06]
+//@   inline
+//@ func NewRange [C06]
+//@   inline
+
+// parseGo: e is one of the goexpression extractors; what it returns is assumed to lie inside the text it was
+// given (proved for the clamping part of goexpression.extract, assumed for go/parser's positions)
+//@ func parseGo [C06]
+//@   requires inputOK(pi)
+//@   modifies pi.charIndex, failedDuring
+//@   assume after e#1: implies(result2 == nil, 0 <= result0 && result0 <= result1 && result1 <= len(arg0))
+//@   ensures inputOK(pi) && pi.s == old(pi.s)
+//@   ensures implies(err == nil, located(pi.s, r) && r.Range.To.Index == pi.charIndex && r.Range.From.Index >= old(pi.charIndex) && r.Range.To.Index - r.Range.From.Index == len(r.Value))
+//@   ensures implies(err != nil, pi.charIndex == old(pi.charIndex))
+
+//@ func parseGoSliceArgs [C06]
+//@   requires inputOK(pi)
+//@   modifies pi.charIndex, failedDuring
+//@   assume after goexpression.SliceArgs#1: implies(result1 == nil, isPrefix(result0, arg0))
+//@   ensures inputOK(pi) && pi.s == old(pi.s)
+//@   ensures implies(err == nil, located(pi.s, r) && r.Range.From.Index == old(pi.charIndex) && r.Range.To.Index == pi.charIndex && r.Range.To.Index - r.Range.From.Index == len(r.Value))
+//@   ensures implies(err != nil, pi.charIndex == old(pi.charIndex))
+
+//@ func parseGoFuncDecl [C06]
+//@   requires inputOK(pi) && isPrefix(cat(prefix, " "), sub(pi.s, pi.charIndex, len(pi.s)))
+//@   modifies pi.charIndex, failedDuring
+//@   assume after goexpression.Func#1: implies(result2 == nil, isPrefix(result1, sub(arg0, 5, len(arg0))))
+//@   ensures inputOK(pi) && pi.s == old(pi.s)
+//@   ensures implies(err == nil, located(pi.s, expression) && expression.Range.To.Index == pi.charIndex && expression.Range.From.Index == old(pi.charIndex) + old(len(prefix)) + 1)
+//@   ensures implies(err != nil, pi.charIndex == old(pi.charIndex))
